@@ -61,6 +61,10 @@ type Scenario struct {
 	// EarlyClone: publishers that use WithOnly make their clone once, when they
 	// start, and keep using it - also after the subscription has been removed
 	EarlyClone bool `json:"early_clone,omitempty"`
+	// Nested: WithOnly publishers are made by applying WithOnly this many extra
+	// times to the publisher WithOnly returned (a publisher made by WithOnly is a
+	// PubSub like any other).
+	Nested int `json:"nested,omitempty"`
 	// UnsubOnTimeout >= 1: the OnPubTimeout callback unsubscribes initial
 	// subscription UnsubOnTimeout-1 the first time it is called (no Sync variants
 	// in such a scenario: they call the callback with the lock held)
@@ -87,6 +91,9 @@ func (H) Decode(b []byte) (any, error) {
 func (H) Describe(sc any) string {
 	s := sc.(*Scenario)
 	x := fmt.Sprintf("timeout=%v onTimeout=%v defbuf=%d subs=%+v pubs=%+v ctl=%+v ctl2=%+v", time.Duration(s.Timeout), s.OnTimeout, s.DefBuf, s.Subs, s.Pubs, s.Ctl, s.Ctl2)
+	if s.Nested > 0 {
+		x += fmt.Sprintf(" [WithOnly applied %d times over]", s.Nested+1)
+	}
 	if s.EarlyClone {
 		x += " [WithOnly clones are made once, up front, and outlive their subscription]"
 	}
@@ -136,6 +143,9 @@ func (H) Generate(r *simrt.Rand, tier string) any {
 	if withOnly {
 		only = r.Intn(len(s.Subs))
 		s.EarlyClone = r.Intn(2) == 0 && !base252
+		if r.Intn(3) == 0 && !base252 {
+			s.Nested = 1 + r.Intn(2)
+		}
 		if !s.EarlyClone {
 			protect = only // a clone made at call time is not used after its channel's removal
 		}
@@ -302,6 +312,11 @@ func (H) Shrink(sc any) []any {
 	for i := range s.Pubs {
 		c := clone()
 		c.Pubs = append(c.Pubs[:i], c.Pubs[i+1:]...)
+		out = append(out, c)
+	}
+	if s.Nested > 0 {
+		c := clone()
+		c.Nested = s.Nested - 1
 		out = append(out, c)
 	}
 	for i := range s.Pubs {
@@ -507,6 +522,17 @@ func (r *run) addSub(buf int, spec Recv) *subState {
 	return st
 }
 
+// withOnly applies WithOnly(ch) to ps, 1+nested times over.
+func withOnly(ps *chans.PubSub[int], ch <-chan int, nested int) *chans.PubSub[int] {
+	for i := 0; i <= nested; i++ {
+		ps = ps.WithOnly(ch)
+		if nested > 0 {
+			simrt.Count("fault.withonly_nested", 1)
+		}
+	}
+	return ps
+}
+
 // Execute implements core.Harness.
 func (H) Execute(scAny any, cfg simrt.Config, st *core.Stats) (*simrt.Outcome, *core.Violation) {
 	sc := scAny.(*Scenario)
@@ -556,7 +582,7 @@ func (H) Execute(scAny any, cfg simrt.Config, st *core.Stats) (*simrt.Outcome, *
 				if sc.EarlyClone {
 					for _, pc := range sc.Pubs[p] {
 						if pc.Only >= 0 && early == nil {
-							early = r.ps.WithOnly(r.subs[pc.Only].ch)
+							early = withOnly(r.ps, r.subs[pc.Only].ch, sc.Nested)
 						}
 					}
 				}
@@ -577,7 +603,7 @@ func (H) Execute(scAny any, cfg simrt.Config, st *core.Stats) (*simrt.Outcome, *
 						if early != nil {
 							ps = early
 						} else {
-							ps = ps.WithOnly(r.subs[pc.Only].ch)
+							ps = withOnly(ps, r.subs[pc.Only].ch, sc.Nested)
 						}
 					}
 					switch pc.Variant {
@@ -679,7 +705,7 @@ func (H) Execute(scAny any, cfg simrt.Config, st *core.Stats) (*simrt.Outcome, *
 						}
 						if op.Op == "unsubclone" {
 							simrt.Count("fault.unsub_via_withonly", 1)
-							cr.err = r.ps.WithOnly(st.ch).Unsub(st.ch)
+							cr.err = withOnly(r.ps, st.ch, sc.Nested).Unsub(st.ch)
 						} else {
 							cr.err = r.ps.Unsub(st.ch)
 						}
